@@ -4,8 +4,8 @@ import json, sys
 from pathlib import Path
 ROOT = Path(__file__).resolve().parent.parent
 sys.path.insert(0, str(ROOT / "checklib"))
-from props import PROPS
-from manifest_meta import META, NOT_YET, HOOK_COMMITS
+from props import PROPS, META
+from manifest_meta import NOT_YET, HOOK_COMMITS
 
 checks = []
 for pid, cfg in PROPS.items():
